@@ -63,6 +63,17 @@ KF_C11_genesis(prop, coded, out) ==
   /\ prop.classes # {} /\ prop.classes \subseteq {"block-too-early", "block-too-early-empty"}
   /\ coded.valid
 
+(* C24: keys the block may request from the parent: chain metadata, and for every transaction its declared keys
+   and its sponsor's balance key *)
+AllowedReads(txs) == {"meta:height", "meta:timestamp", "meta:fee"} \cup
+                     UNION {DOMAIN EffDecl(txs[i]) \ {"_"} : i \in DOMAIN txs}
+ReadDiag(out, txs) ==
+  (IF \E i \in DOMAIN out.reads : out.reads[i] \notin AllowedReads(txs) THEN {"read-outside-declared-keys"} ELSE {})
+(* a failing parent read of a key the block needs fails the block (no hang, not treated as absence) *)
+FailDiag(out, txs, fk) ==
+  IF fk = "" \/ fk \notin AllowedReads(txs) THEN {}
+  ELSE IF out.err = "" THEN {"failed-read-ignored"} ELSE {}
+
 TBlock ==
   /\ Ev("block")
   /\ LET prop  == RunBlock(st, T.hdr, T.txs, T.prices, R)
@@ -72,7 +83,10 @@ TBlock ==
          om    == IF exp.valid THEN ExpOverMax(exp, T.txs) ELSE {}
          d0    == BlockDiag(exp, T.out, T.txs, om, prop.allowed \cup coded.allowed)
          d1    == IF T.out.err = "" /\ T.bid = lastBid /\ T.out.root # lastRoot THEN {"root-differs-between-runs"} ELSE {}
-     IN /\ diag' = d0 \cup d1
+         fk    == T.failkey
+         needed == fk # "" /\ fk \in AllowedReads(T.txs)
+         d2    == ReadDiag(T.out, T.txs) \cup FailDiag(T.out, T.txs, fk)
+     IN /\ diag' = (IF needed THEN {} ELSE d0 \cup d1) \cup d2
         /\ (kf11 => PrintT(<<"KF_HIT", "C11-genesis-child-timestamp-below-genesis-header", l>>))
         /\ ((om # {} /\ T.out.err = "") => PrintT(<<"KF_HIT", "C07-fee-above-maxfee-at-verify", l>>))
         /\ st' = IF T.advance /\ T.out.err = "" THEN exp.st ELSE st
